@@ -6,6 +6,7 @@ CONSTANT One = 1
 CONSTANT Deltas <- DeltasUns
 CONSTANT Factors <- FactorsU
 CONSTANT Divisors <- DivUns
+CONSTANT Halves <- HalvesUns
 CONSTANT MaxLen = 0
 INVARIANTS TypeOK ExactlyOnce NewValue
 PROPERTY ChangeNotifies
